@@ -6,6 +6,7 @@ import time
 from . import core, universe as U
 
 PROP = "C12"
+PREF = {}
 
 from ovld import typeorder  # noqa: E402
 from ovld.mro import Order  # noqa: E402
@@ -31,6 +32,12 @@ def shard(shard, nshards, tier, seed):
     uni = [u for u in U.universe(1 if tier == "quick" else 2) if not u[0].startswith("bad:")]
     n = len(uni)
     acc.extra["universe_size"] = n
+    # the object that stands for a spec when it is a *member* of another type: its normal form
+    PREF.clear()
+    for lab, sp, _ in uni:
+        k = core.canon(sp)
+        if lab.startswith("norm:") or k not in PREF:
+            PREF[k] = lab
     # all ordered pairs, sharded by row
     for i in range(shard, n, nshards):
         la, sa, a = uni[i]
@@ -73,11 +80,12 @@ def clause(acc, la, sa, a, lb, sb, b, ab):
     op = sa[0]
     exp = None
     why = None
-    if op in ("union",) and isinstance(sb, str) and sb in sa[1:] and lb.startswith("raw:"):  # noqa
+    member = sb in sa[1:] and PREF.get(core.canon(sb)) == lb
+    if op in ("union", "ounion") and member:
         exp, why = Order.MORE, "union-vs-member"
-    elif op == "inter" and isinstance(sb, str) and sb in sa[1:] and lb.startswith("raw:"):
+    elif op == "inter" and member:
         exp, why = Order.LESS, "intersection-vs-member"
-    elif op == "dep" and sb == sa[1] and lb.startswith("raw:"):
+    elif op == "dep" and sb == sa[1] and PREF.get(core.canon(sb)) == lb:
         exp, why = Order.LESS, "dependent-vs-bound"
     elif op == "lit" and isinstance(sb, str) and lb.startswith("raw:") and sb in ("int", "str", "O") and \
             all(type(v).__name__ == sb or sb == "O" for v in sa[1:]):
